@@ -1,9 +1,30 @@
 package type1
 
-// Miniature clear-text Type 1 fonts (lenIV 0: charstrings encrypted without lead bytes), laid out like the
-// writer's no-eexec output.  Font 0: explicit encoding, an accented composite (seac) and a
-// composite whose base is itself a composite.  Font 1: StandardEncoding with most glyphs absent.
+// Miniature Type 1 fonts as an independent writer would produce them.  Font 0: explicit
+// encoding, an accented composite (seac) and a composite whose base is itself a composite.
+// Font 1: StandardEncoding with most glyphs absent.  Font 2: two composites on one base of nine
+// commands, explicit private-dictionary values with symbolic digits.
+// container: 0 clear text (no eexec), 1 hexadecimal eexec (PFA), 2 binary eexec, 3 PFB segments
+// around binary eexec.  lenIV: number of lead bytes of every charstring (the /lenIV entry is
+// left out for the default 4).  alt: the -| |- | procedure names instead of RD ND NP.
 func vpMiniFont(k int) []byte {
+	text, _ := vpMiniFontEx(k, 0, 0, false)
+	return text
+}
+
+func vpEexecEncryptRef16(lead [4]byte, plain []byte) []byte {
+	var r uint16 = 55665
+	var out []byte
+	all := append(append([]byte{}, lead[:]...), plain...)
+	for _, p := range all {
+		c := p ^ byte(r>>8)
+		r = (uint16(c)+r)*52845 + 22719
+		out = append(out, c)
+	}
+	return out
+}
+
+func vpMiniFontEx(k, container, lenIV int, alt bool) (font []byte, digits []byte) {
 	head := "%!FontType1-1.1: Mini 1.0\n10 dict begin\n/FontInfo 3 dict dup begin\n/version (1.0) def\n/FullName (Mini Font) def\n/Weight (Bold) def\nend def\n/FontName /Mini def\n"
 	enc := "/Encoding StandardEncoding def\n"
 	if k == 0 {
@@ -13,9 +34,22 @@ func vpMiniFont(k int) []byte {
 	if k == 2 {
 		private = "/BlueShift # def\n/BlueFuzz # def\n/BlueScale 0.05 def\n/StdHW [4#] def\n/LanguageGroup 1 def\n/ExpansionFactor 0.5 def\n"
 	}
-	mid := "/PaintType 0 def\n/FontType 1 def\n/FontMatrix [0.001 0 0 0.001 0 0] def\n/FontBBox [0 0 0 0] def\ncurrentdict end\ndup /Private 15 dict dup begin\n/RD {string currentfile exch readstring pop} executeonly def\n/ND {def} executeonly def\n/NP {put} executeonly def\n/lenIV 0 def\n/Subrs 0 array\n/BlueValues [0 10] def\n" + private + "/ForceBold false def\n/password 5839 def\n/MinFeature {16 16} def\nND\n2 index /CharStrings 8 dict dup begin\n"
+	rd, nd, np := "RD", "ND", "NP"
+	if alt {
+		rd, nd, np = "-|", "|-", "|"
+	}
+	lenIVdef := "/lenIV " + string(rune('0'+lenIV)) + " def\n"
+	if lenIV == 4 {
+		lenIVdef = "" // the default
+	}
+	clear := "/PaintType 0 def\n/FontType 1 def\n/FontMatrix [0.001 0 0 0.001 0 0] def\n/FontBBox [0 0 0 0] def\ncurrentdict end\n"
+	if container != 0 {
+		clear += "currentfile eexec\n"
+	}
+	mid := clear + "dup /Private 15 dict dup begin\n/" + rd + " {string currentfile exch readstring pop} executeonly def\n/" + nd + " {def} executeonly def\n/" + np + " {put} executeonly def\n" + lenIVdef + "/Subrs 0 array\n/BlueValues [0 10] def\n" + private + "/ForceBold false def\n/password 5839 def\n/MinFeature {16 16} def\n" + nd + "\n2 index /CharStrings 8 dict dup begin\n"
 	cs := func(name string, plain []byte) []byte {
-		code := vpCharstringEncryptRef(plain) // lenIV 0: no lead bytes, but still encrypted
+		lead := []byte{0x5a, 0x11, 0xc3, 0x7e, 0x09, 0xee}[:lenIV]
+		code := vpCharstringEncryptRef(append(append([]byte{}, lead...), plain...))
 		var out []byte
 		out = append(out, '/')
 		out = append(out, name...)
@@ -25,9 +59,9 @@ func vpMiniFont(k int) []byte {
 			out = append(out, byte('0'+n/10))
 		}
 		out = append(out, byte('0'+n%10))
-		out = append(out, " RD "...)
+		out = append(out, (" " + rd + " ")...)
 		out = append(out, code...)
-		out = append(out, " ND\n"...)
+		out = append(out, (" " + nd + "\n")...)
 		return out
 	}
 	var text []byte
@@ -38,9 +72,17 @@ func vpMiniFont(k int) []byte {
 	n := 0
 	for i, c := range text {
 		if c == '#' {
-			d := vpByte("digit" + string(rune('0'+n)))
-			vpAssume(d >= '0' && d <= '9')
-			text[i] = d
+			if container != 0 {
+				// inside an encrypted portion a symbolic byte makes the whole rest of the cipher
+				// text symbolic: the digits are symbolic in the clear-text serialisation only
+				text[i] = "007"[n%3]
+				digits = append(digits, text[i])
+			} else {
+				d := vpByte("digit" + string(rune('0'+n)))
+				vpAssume(d >= '0' && d <= '9')
+				text[i] = d
+				digits = append(digits, d)
+			}
 			n++
 		}
 	}
@@ -63,20 +105,50 @@ func vpMiniFont(k int) []byte {
 		text = append(text, cs("Zdbl", []byte{139, 247, 92, 13, 139, 159, 169, 140, 247, 86, 12, 6})...)
 	}
 	text = append(text, "end\nend\nreadonly put\nput\ndup /FontName get exch definefont pop\n"...)
-	return text
-}
-
-// vpMiniDigits returns the values of the symbolic digits of mini font 2.
-func vpMiniDigits(text []byte) (blueShift, blueFuzz int32, stdHW float64) {
-	at := func(key string) int {
+	if container != 0 {
+		text = append(text, "mark currentfile closefile\n"...)
+		// split at the start of the encrypted portion
+		cut := 0
+		key := "currentfile eexec\n"
 		for i := 0; i+len(key) <= len(text); i++ {
 			if string(text[i:i+len(key)]) == key {
-				return i + len(key)
+				cut = i + len(key)
+				break
 			}
 		}
-		return 0
+		clearPart, secret := text[:cut:cut], text[cut:]
+		cipher := vpEexecEncryptRef16([4]byte{'x', 'y', 'z', 'w'}, secret)
+		trailer := ""
+		for i := 0; i < 8; i++ {
+			trailer += "0000000000000000000000000000000000000000000000000000000000000000\n"
+		}
+		trailer += "cleartomark\n"
+		switch container {
+		case 1:
+			const hexd = "0123456789abcdef"
+			out := append([]byte{}, clearPart...)
+			for i, c := range cipher {
+				out = append(out, hexd[c>>4], hexd[c&15])
+				if i%32 == 31 {
+					out = append(out, '\n')
+				}
+			}
+			out = append(out, '\n')
+			text = append(out, trailer...)
+		case 2:
+			text = append(append(append([]byte{}, clearPart...), cipher...), trailer...)
+		default:
+			seg := func(kind byte, data []byte) []byte {
+				n := len(data)
+				return append([]byte{128, kind, byte(n), byte(n >> 8), byte(n >> 16), byte(n >> 24)}, data...)
+			}
+			out := seg(1, clearPart)
+			out = append(out, seg(2, cipher)...)
+			out = append(out, seg(1, []byte(trailer))...)
+			text = append(out, 128, 3)
+		}
 	}
-	return int32(text[at("/BlueShift ")] - '0'), int32(text[at("/BlueFuzz ")] - '0'), 40 + float64(text[at("/StdHW [4")]-'0')
+	return text, digits
 }
 
 func vpSameFont(a, b *Font) bool {
@@ -104,7 +176,12 @@ func VP_C17_type1_read() {
 	vpUnwind(20000)
 	vpStepLimit(30000000)
 	k := vpChoose("font", vpParam("FONTS", 3))
-	text := vpMiniFont(k)
+	// the way the font is written down: container, lenIV, procedure names
+	ser := vpChoose("serialisation", vpParam("SERIALISATIONS", 6))
+	container := []int{0, 1, 2, 3, 1, 3}[ser]
+	lenIV := []int{0, 4, 1, 0, 6, 4}[ser]
+	alt := []bool{false, true, false, true, false, false}[ser]
+	text, digits := vpMiniFontEx(k, container, lenIV, alt)
 	w0 := vpGlobalWrites()
 	f1, e1 := Read(&vpReader{data: text, faultAt: -1, name: "a"})
 	vpAssert("reads", e1 == nil && f1 != nil)
@@ -148,7 +225,7 @@ func VP_C17_type1_read() {
 				vpAssert("composite-starts-with-the-base-outline", vpSameOp(ac.Cmds[i], a.Cmds[i]) && vpSameOp(ag.Cmds[i], a.Cmds[i]))
 			}
 		}
-		bs, bf, hw := vpMiniDigits(text)
+		bs, bf, hw := int32(digits[0]-'0'), int32(digits[1]-'0'), 40+float64(digits[2]-'0')
 		p := f1.Private
 		vpAssert("explicit-private-values", p != nil && p.BlueShift == bs && p.BlueFuzz == bf && p.BlueScale == 0.05 &&
 			p.StdHW == hw && p.ForceBold == false && len(p.BlueValues) == 2)
